@@ -15,6 +15,7 @@ func init() {
 			"R2 initConnection: LastPushContext is set before addCon, authorize before addCon, addCon before initializeProxy on every path; a failed initializeProxy passes closeConnection",
 			"R3 Stream/StreamDeltas create the connection / start receiving only under IsServerReady()==true, and authenticate first",
 			"R4 deltaWatchedResources folds Subscribe, Unsubscribe and InitialResourceVersions into the returned set",
+			"R6 once a type was marked AlwaysRespond (its parent type was re-requested on reconnect) the next request for it is answered in full: every negative or narrowed answer lies under the flag==false edge",
 			"R5 on a full (non-partial) push every requested EDS name and every requested sidecar/waypoint RDS name yields a resource (every skip is under partialPush)",
 		},
 		NotDecided: "state equality after every cut point; ztunnel initial_resource_versions diffing; removal of retained-but-deleted resources (value-level)",
@@ -24,6 +25,7 @@ func init() {
 			{"C05-R3", "readiness and authentication gate", c05r3},
 			{"C05-R4", "retained names folded in", c05r4},
 			{"C05-R5", "every requested name answered on a full push", c05r5},
+			{"C05-R6", "a forced (warming) response is never lost or narrowed", func(c *Ctx) { alwaysRespondForces(c); c.Floor(4) }},
 		},
 	})
 }
@@ -140,7 +142,23 @@ func c05r2(c *Ctx) {
 		return ok && !eq // a return on the err != nil side
 	})
 	c.Check("initConnection:failed initializeProxy closes the connection", inits[0].Pos(), bad == nil, "the error path of initializeProxy returns without closeConnection: a dead connection stays registered")
-	c.Floor(7)
+	// R2b: registration before initialisation only helps if the push fan-out sees uninitialised connections: nothing
+	// between StartPush and Enqueue filters on the connection's initialised state, and the fan-out reads adsClients.
+	startPush := p.Func(pkgXds, "DiscoveryServer", "StartPush")
+	enq := p.FuncObj(pkgXds, "PushQueue", "Enqueue")
+	reach := p.CG().Reach([]*ssa.Function{startPush}, func(f *ssa.Function) bool { o, _ := f.Object().(*types.Func); return o != nil && o == enq })
+	adsClients := p.Field(pkgXds, "DiscoveryServer", "adsClients")
+	initField := p.Field(pkgXdsLib, "Connection", "initialized")
+	eff := effectsOf(reach)
+	_, readsClients := eff.Reads[adsClients]
+	c.Check("StartPush:fans out over adsClients", startPush.Pos(), readsClients && len(callsIn(startPush, enq)) >= 1, "StartPush no longer enqueues the connections registered in adsClients")
+	acc, filters := eff.Reads[initField]
+	det := ""
+	if filters {
+		det = "the push fan-out consults the connection's initialised state (" + pathTo(reach, acc.Fn) + "): a snapshot built while a (re)connecting proxy is between addCon and MarkInitialized is never enqueued for it, defeating register-before-initialise"
+	}
+	c.Check("StartPush:no initialisation filter before Enqueue", acc.Pos, !filters, det)
+	c.Floor(9)
 }
 
 func c05r3(c *Ctx) {
@@ -231,6 +249,23 @@ func c05r4(c *Ctx) {
 				}
 				st = append(st, b.Succs...)
 			}
+		}
+		if !found {
+			// non-loop form: the field value handed to a bulk set operation
+			eachInstr(fn, func(ins ssa.Instruction) {
+				o := calleeObj(ins)
+				if o == nil || !containsWord(ops, o.Name()) {
+					return
+				}
+				for _, a := range ins.(ssa.CallInstruction).Common().Args {
+					if fv := fieldOfLoad(a); fv != nil && fv.Name() == f {
+						if base, _ := fieldLoadOf(a, fv); base == ssa.Value(req) {
+							found = true
+							pos = ins.Pos()
+						}
+					}
+				}
+			})
 		}
 		c.Check("deltaWatchedResources:"+f+" folded in", pos, found, "the request's "+f+" is not folded into the recorded subscription: names retained by a reconnecting client are neither refreshed nor removed")
 	}
